@@ -1,10 +1,15 @@
 (** Pins/C08.v — the statements of the C08 theorems, pinned. *)
-From PdfV Require Import Base.Prelude Gen.Generated Content.Model Content.Canon Content.Proofs Content.TableProofs Properties.C08.
+From PdfV Require Import Base.Prelude Gen.Generated Content.Model Content.Canon Content.Proofs Content.TableProofs Content.Bytes Content.BytesProofs Properties.C08.
 
 Check C08_roundtrip_tokens : forall ops, accepted ops ->
   exists ts, ser_toks ops = Ok ts /\ parse_ops_toks ts = Ok ops.
 Check C08_roundtrip : forall lex ops, accepted ops -> lex_reads_back lex ops ->
   forall b, ser_ops ops = Ok b -> parse_ops lex b = Ok ops.
+Check C08_roundtrip_bytes : forall img ops, accepted ops -> writable ops ->
+  forall b, ser_ops ops = Ok b -> parse_bytes_with img b = Ok ops.
+Check C08_lex_reads_back : forall img ts b,
+  toks_okb ts = true -> render_toks ts = Ok b -> parse_bytes_with img b = parse_ops_toks ts.
+Check C08_ser_defined : forall ops, accepted ops -> writable ops -> exists b, ser_ops ops = Ok b.
 Check C08_cur_point_sync :
   sync None (fst st0) /\
   forall cur last o rest args k cur2 n,
@@ -36,3 +41,4 @@ Check C08_inline_abbreviations :
   same_map iso_inline_filters inline_filter_abbr = true.
 (* the domain of the round trip cannot be narrowed silently *)
 Check eq_refl : seq_okb demo_ops = true.
+Check eq_refl : writableb demo_ops = true.
